@@ -24,6 +24,11 @@ CLAIMED = {
    note="Demand column of the site table is hand-read (checked dynamically against every observed trace); translator grammar trusted; real memory safety of the stores rests on ASan + the capacity hook; complex arrays and ADEPT_STACK_STORAGE_STL out of scope.",
    technique="Coq proof of buffer-capacity invariant + generated per-site obligations (translator) + instrumented differential run",
    design="DESIGN.md §4 C09"),
+ "C17": dict(
+   text="The integer functions of all ten special-matrix storage engines (index, pack_offset, data_size, row_offset, get_row_range, set_extras, value guards, upper/lower diagonal offsets, transpose engine) are translated from include/adept/SpecialMatrix.h into Coq on every run; machine-checked theorems (axiom-free, for every dimension, offset and band width) show: stored positions lie inside the allocated data and are pairwise distinct modulo the symmetric mirror; traversing a row inside an expression yields the dense row (mirrored / zero outside triangle or band) under the stated offset hypothesis; a write changes exactly that entry and its mirror; T(), diag_vector(k), submatrix_on_diagonal and assignment from an expression agree with the dense equivalent. Tie: translator (G) + exhaustive correspondence run over all typedef'd kinds and several general bands, sizes 1..7, compared with the generated model and with a dense oracle. The known defect DiagMatrix::T() (offset 0 violates the traversal hypothesis) is reported as KNOWN-FINDING and kept as a machine-checked refutation (Refuted_C17.v).",
+   note="Translator grammar trusted (cross-checked by the run); passive matrices only here (active ones share the same engine functions, exercised under C09); column-major band engines reachable only through T().",
+   technique="Coq proofs over source-generated engine functions (translator) + exhaustive differential run + dense oracle",
+   design="DESIGN.md §4 C17"),
  "C13": dict(
    text="Machine-checked proof that the OpenMP Jacobian routines, modelled as an arbitrary execution order of ceil(k/M) blocks with private buffers, perform a permutation of the serial routine's writes (each cell produced by exactly one block, no re-association), so the resulting matrix is identical for every schedule and thread count; blocks write disjoint cells. Tie: harness built with -fopenmp, set_max_jacobian_threads(1..16), compared exactly with the model and the unit-vector passes; a guarded hook confirms several threads processed blocks.",
    note="Threads are modelled at block granularity (inside a block only private memory and disjoint output cells are touched - proved); the OpenMP runtime executing each iteration exactly once is trusted; hardware interleavings are exercised, not proved.",
